@@ -36,12 +36,13 @@ AddInterval(cov, a, b) ==
       hi == IF right = {} THEN b ELSE (CHOOSE iv \in right : TRUE)[2]
   IN (cov \ (left \cup right)) \cup {<<lo, hi>>}
 
-DataOK(r, a, seed) == \A i \in 1..r.len : r.data[i] = Img(seed, a + i - 1)
+\* contents: the pattern Img(seed, .) when seed >= 0, else the explicit byte sequence img (address a is img[a+1])
+DataOK(r, a, seed, img) == \A i \in 1..r.len : r.data[i] = (IF seed >= 0 THEN Img(seed, a + i - 1) ELSE img[a + i])
 
 Word(d) == d[1] * 256 + d[2]
 
 (* One record.  n is the image length, seed its contents.                  *)
-ReadRecord(rd, r, n, seed) ==
+ReadRecord(rd, r, n, seed, img) ==
   IF ~rd.ok THEN rd
   ELSE IF ~WellFormed(r) \/ rd.eof THEN [rd EXCEPT !.ok = FALSE]       \* nothing may follow the end-of-file record
   ELSE CASE r.type = 0 ->
@@ -50,7 +51,7 @@ ReadRecord(rd, r, n, seed) ==
               ELSE IF r.addr + r.len > 65536              \* would wrap inside the 64 KiB window
                       \/ a + r.len > n                     \* bytes outside the image
                       \/ Overlaps(rd.cov, a, a + r.len)    \* a byte given twice
-                      \/ ~DataOK(r, a, seed)               \* wrong contents
+                      \/ ~DataOK(r, a, seed, img)          \* wrong contents
                    THEN [rd EXCEPT !.ok = FALSE]
                    ELSE [rd EXCEPT !.cov = AddInterval(@, a, a + r.len)]
          [] r.type = 1 -> [rd EXCEPT !.eof = TRUE]
@@ -59,12 +60,13 @@ ReadRecord(rd, r, n, seed) ==
          [] OTHER -> rd                                     \* start address records carry no image data
 
 \* balanced recursion (records are still read first to last): TLC's cost grows with the square of the depth
-RECURSIVE ReadRange(_, _, _, _, _, _)
-ReadRange(rd, recs, lo, hi, n, seed) ==
+RECURSIVE ReadRange(_, _, _, _, _, _, _)
+ReadRange(rd, recs, lo, hi, n, seed, img) ==
   IF lo > hi THEN rd
-  ELSE IF lo = hi THEN ReadRecord(rd, recs[lo], n, seed)
-  ELSE LET mid == (lo + hi) \div 2 IN ReadRange(ReadRange(rd, recs, lo, mid, n, seed), recs, mid + 1, hi, n, seed)
-ReadFrom(rd, recs, i, n, seed) == ReadRange(rd, recs, i, Len(recs), n, seed)
+  ELSE IF lo = hi THEN ReadRecord(rd, recs[lo], n, seed, img)
+  ELSE LET mid == (lo + hi) \div 2 IN
+       ReadRange(ReadRange(rd, recs, lo, mid, n, seed, img), recs, mid + 1, hi, n, seed, img)
+ReadFrom(rd, recs, i, n, seed) == ReadRange(rd, recs, i, Len(recs), n, seed, << >>)
 
 (* The file reproduces the image: only well-formed records, exactly one    *)
 (* end-of-file record at the end, every byte once and none elsewhere.      *)
@@ -72,6 +74,12 @@ Reproduces(recs, n, seed) ==
   LET rd == ReadFrom(InitReader, recs, 1, n, seed) IN
   /\ rd.ok /\ rd.eof
   /\ rd.cov = (IF n = 0 THEN {} ELSE {<<0, n>>})
+
+\* the same for an image given as a byte sequence
+ReproducesImg(recs, img) ==
+  LET rd == ReadRange(InitReader, recs, 1, Len(recs), Len(img), -1, img) IN
+  /\ rd.ok /\ rd.eof
+  /\ rd.cov = (IF img = << >> THEN {} ELSE {<<0, Len(img)>>})
 
 -----------------------------------------------------------------------------
 (* Reference writer, parameterised so that the boundary structure of the   *)
